@@ -222,7 +222,7 @@ func init() {
 		Rule: "case = random tree (aliases, suggested/valid values, dynamic value and argument completion functions, wrappers, help) x COMP_LINE = program word + AST-rendered earlier words (options with values, command tokens; closed items) + last word from {empty, `-`, `--`, prefix of a key with one or two dashes, non-matching prefix, `--key=partial`, command prefix, other word} x bash/zsh; extra whitespace between words; " +
 			"distinct = (level, last-word class, target, item shapes); non-trivial = at least one candidate is expected. Domain (DESIGN N2): no require-order programs, earlier words end in a closed item and are written with `--` when the program's mode is not Normal." + genDims,
 		Assumptions: []string{"COMP_LINE words contain no whitespace (the library splits COMP_LINE on whitespace)"},
-		Cases:       func(tier string) int { return tierN(tier, 12000, 1000000) },
+		Cases:       func(tier string) int { return tierN(tier, 30000, 1000000) },
 		Run: func(seed uint64, idx int, tier string) *fw.Result {
 			r := CaseRng(seed, "C17", idx)
 			p := c17Prog(r, idx)
@@ -397,7 +397,7 @@ func init() {
 				}
 			}
 			// real process, real os.Exit, for a sample of the cases
-			if idx%16 == 0 {
+			if idx%32 == 0 {
 				self, _ := os.Executable()
 				work := os.Getenv("VERIF_WORK")
 				if work == "" {
